@@ -368,15 +368,11 @@ bool handle_minus(const RCP<const Basic> &arg,
     } else if (is_a<Add>(*arg)) {
         if (could_extract_minus(*arg)) {
             const Add &s = down_cast<const Add &>(*arg);
-            // negate term by term; a term that is itself an Add with
-            // coefficient -1 must be merged into the sum (coefficient 1)
-            umap_basic_num d;
-            RCP<const Number> coef = s.get_coef()->mul(*minus_one);
-            for (const auto &p : s.get_dict()) {
-                Add::coef_dict_add_term(outArg(coef), d,
-                                        p.second->mul(*minus_one), p.first);
+            umap_basic_num d = s.get_dict();
+            for (auto &p : d) {
+                p.second = p.second->mul(*minus_one);
             }
-            *rarg = Add::from_dict(coef, std::move(d));
+            *rarg = Add::from_dict(s.get_coef()->mul(*minus_one), std::move(d));
             return true;
         }
     } else if (could_extract_minus(*arg)) {
